@@ -97,6 +97,13 @@ func (c11) Run(t *tape.Tape, tier Tier) *Result {
 		res.add(Violation{Prop: "C11", Oracle: "encode-at-origin", Culprit: typeOfLayer(want[0]), Expected: "no panic", Observed: p})
 		return res
 	}
+	if spec.HasKind(func(k gen.Kind) bool { return k == gen.LErrno }) && t.Bool(1, 4) {
+		if d2, n := world.ForeignArchErrno(m1); n > 0 {
+			m1 = d2
+			sim.Stats.Faults["errno-foreign-arch"] += n
+			res.Desc.Faults = append(res.Desc.Faults, "errno-foreign-arch")
+		}
+	}
 	skipPred := foreignPredicateLayer(want)
 	route := drawRoute(t, nproc, maxHops)
 	res.Desc.Routes = []string{routeString(append([]int{0}, route...))}
